@@ -58,6 +58,10 @@ pub struct Cfg {
     /// configuration alone, never by what was evaluated before
     #[serde(default, skip_serializing_if = "std::ops::Not::not")]
     pub troy: bool,
+    /// a user unit family 'zero' whose lowest item has index 0: zaa (0), zbb (1), zcc (2), each ten
+    /// of the one below
+    #[serde(default, skip_serializing_if = "std::ops::Not::not")]
+    pub zero_unit: bool,
     /// update_currency calls, "name=rate", in order
     #[serde(default, skip_serializing_if = "Vec::is_empty")]
     pub rates: Vec<String>,
@@ -110,6 +114,17 @@ impl Cfg {
                 let parse = format!("{{NUMBER:value}} {{TEXT:type:{}}}", w);
                 if !c.add_dynamic_type_item("troy-weight", i + 1, &format!("{{value}} {}", w), vec![parse.as_str()], up, down, vec![w.to_string()], None, None, None) {
                     return Err(format!("add_dynamic_type_item(troy-weight, {}) rejected", w));
+                }
+            }
+        }
+        if self.zero_unit {
+            if !c.add_dynamic_type("zero") {
+                return Err("add_dynamic_type(zero) rejected".into());
+            }
+            for (i, (w, up, down)) in [("zaa", "{value} / 10", "{value}"), ("zbb", "{value} / 10", "{value} * 10"), ("zcc", "{value}", "{value} * 10")].iter().enumerate() {
+                let parse = format!("{{NUMBER:value}} {{TEXT:type:{}}}", w);
+                if !c.add_dynamic_type_item("zero", i, &format!("{{value}} {}", w), vec![parse.as_str()], up, down, vec![w.to_string()], None, None, None) {
+                    return Err(format!("add_dynamic_type_item(zero, {}) rejected", w));
                 }
             }
         }
